@@ -34,6 +34,8 @@ type MassDBV1 struct {
 	pubKeyHash pocutil.Hash
 	plotting   int32 // atomic
 	stopPlotCh chan struct{}
+	stopLock   sync.Mutex // guards stopped and the closing of stopPlotCh
+	stopped    bool       // stopPlotCh of the current plot has been closed
 	wg         sync.WaitGroup
 }
 
@@ -68,7 +70,10 @@ func (mdb *MassDBV1) Plot() chan error {
 		return result
 	}
 
+	mdb.stopLock.Lock()
 	mdb.stopPlotCh = make(chan struct{})
+	mdb.stopped = false
+	mdb.stopLock.Unlock()
 	mdb.wg.Add(1)
 	go mdb.executePlot(result)
 
@@ -85,7 +90,12 @@ func (mdb *MassDBV1) StopPlot() chan error {
 	}
 
 	go func() {
-		close(mdb.stopPlotCh)
+		mdb.stopLock.Lock()
+		if !mdb.stopped && mdb.stopPlotCh != nil {
+			mdb.stopped = true
+			close(mdb.stopPlotCh)
+		}
+		mdb.stopLock.Unlock()
 		mdb.wg.Wait()
 		result <- nil
 	}()
